@@ -29,7 +29,7 @@ def generate(ctx):
     thorough = ctx.tier == "thorough"
     dts = [1.0, 0.5, 0.1, 1.3, 0.7, 0.25, 2.0, 0.3]
     for _ in range(9000 if thorough else 450):
-        dt0 = rng.choice(dts)
+        dt0 = rng.choice(dts + [round(rng.uniform(0.05, 3.0), 4)])
         k0 = rng.choice([0, 1, 2, 3, 4, 6, 9])
         dur0 = rng.choice([k0 * dt0, k0 * dt0, (k0 + 0.5) * dt0, round(k0 * dt0, 3)])
         inc0 = rng.random() < 0.5
@@ -37,11 +37,11 @@ def generate(ctx):
         for _ in range(rng.randint(1, 4)):
             which = rng.choice(["dt", "duration", "inclusive"])
             if which == "dt":
-                val = rng.choice(dts)
+                val = rng.choice(dts + [round(rng.uniform(0.05, 3.0), 4)])
             elif which == "duration":
                 k1 = rng.choice([0, 1, 2, 3, 5, 8, 12])
                 base = rng.choice(dts)
-                val = rng.choice([k1 * base, (k1 + 0.5) * base, 0.0, 0.3, 0.7, 3.9000000000000004])
+                val = rng.choice([k1 * base, (k1 + 0.5) * base, 0.0, 0.3, 0.7, 3.9000000000000004, round(rng.uniform(0.0, 12.0), 4)])
             else:
                 val = rng.random() < 0.5
             steps.append({"set": which, "value": val, "pushes_after": rng.randint(0, 3)})
